@@ -25,7 +25,7 @@ import (
 	"verif.local/harness/ev"
 )
 
-const rule = "per backend (12 single backends + seeded compositions): one seeded history (22-40 ops: receive/fetch/subfetch/stat incl. batches of 25 and 60 refs/enumerate/remove/reopen) run fault-free to learn every operation's lower-layer calls, then one re-run on a fresh instance per (operation, lower call) with a single injected failure (error; error-after-effect for write calls and enumerations; truncated scan for enumerations/KV scans/readdir/file I/O), plus seeded bursts of 2-5 consecutive failures; after the fault: rest of the history, retry of the faulted call, 14 probe operations, full audit, the store's own recovery (diskpacked.Reindex into a fresh index, blobpacked Fast+Full recovery, encrypt re-scan with an empty index, reopen) and a second audit; stat-gate leak scenario per gated backend (3 x capacity failing batched stats in one process). distinct = (backend, history op, op kind, lower-call kind+mode, lower-call index) where the fault was actually delivered"
+const rule = "per backend (11 single backends, in the thorough tier with 3 seeded histories each, + 8/40 seeded compositions): one seeded history (22-40 ops: receive/fetch/subfetch/stat incl. batches of 25 and 60 refs/enumerate/remove/reopen) run fault-free to learn every operation's lower-layer calls, then one re-run on a fresh instance per (operation, lower call) with a single injected failure (error; error-after-effect for write calls and enumerations; truncated scan for enumerations/KV scans/readdir/file I/O), plus seeded bursts of 2-5 consecutive errors; after the fault: rest of the history, retry of the faulted call, 14 probe operations, full audit, the store's own recovery (diskpacked.Reindex into a fresh index, blobpacked Fast+Full recovery, encrypt re-scan with an empty index, reopen) and a second audit; per gated backend a repetition scenario (3 x gate capacity failing calls per op kind in one process, each under a watchdog, then a healthy call); optional real-ENOSPC scenario on a 1 MiB tmpfs (diskpacked packs, files temp files). distinct = (backend, history op, op kind, lower-call kind+mode, lower-call index) where the fault was actually delivered"
 
 func main() {
 	if m := os.Getenv("VERIF_CHILD"); m != "" {
@@ -349,7 +349,7 @@ func (co *coordinator) gateChain(def *backendDef) {
 		r.Note("gate_outcomes", def.Label+":"+ph+":leak")
 		w := map[string]any{"case_id": "gate:" + def.Name + ";", "backend": def.Name, "phase": ph, "counts": g.Counts,
 			"scenario": "fill 60 blobs; per op kind: 3*capacity calls with an injected error at the call's first lower-layer call, each under a watchdog, then one healthy call",
-			"blocked": strings.Split(ev.PerkeepFrames(g.What), "\n")}
+			"blocked":  strings.Split(ev.PerkeepFrames(g.What), "\n")}
 		if ph == "stat" {
 			r.Violation("statgate-leak/"+def.Label, fmt.Sprintf("[%s] package-level stat gate (capacity %d) leaks a slot per failing batched stat: %d failing 60-ref StatBlobs calls returned, the next one never returned (healthy call: %v); reproduced in 2 fresh processes. Blocked goroutines:\n%s",
 				def.Name, g.Counts["capacity"], g.Counts["stat_hung_at_repetition"], g.Counts["stat_healthy_call_hung"] > 0, g.What), w)
